@@ -583,13 +583,15 @@ theorem rejected_D38init : nD38init.holds = true := by decide +kernel
 theorem rejected_D41 : nD41.holds = true := by decide +kernel
 theorem rejected_D36 : nD36.holds = true := by decide +kernel
 theorem rejected_ObjAsStored : nObjAsStored.holds = true := by decide +kernel
+theorem rejected_BestFromBatch : nBestFromBatch.holds = true := by decide +kernel
+theorem rejected_TellDqdKeepsSolution : nTellDqdKeepsSolution.holds = true := by decide +kernel
 
 theorem negatives_rejected : ∀ n, n ∈ negatives → n.E.verdict n.bits = some n.why := by
   intro n hn
   simp only [negatives, List.mem_cons, List.not_mem_nil, or_false] at hn
   have key : ∀ m : Neg, m.holds = true → m.E.verdict m.bits = some m.why := by
     intro m hm; simpa [Neg.holds] using hm
-  rcases hn with rfl | rfl | rfl | rfl | rfl | rfl | rfl | rfl | rfl | rfl | rfl | rfl | rfl | rfl | rfl | rfl | rfl
+  rcases hn with rfl | rfl | rfl | rfl | rfl | rfl | rfl | rfl | rfl | rfl | rfl | rfl | rfl | rfl | rfl | rfl | rfl | rfl | rfl
   · exact key _ rejected_D7
   · exact key _ rejected_D10
   · exact key _ rejected_D10b
@@ -607,6 +609,8 @@ theorem negatives_rejected : ∀ n, n ∈ negatives → n.E.verdict n.bits = som
   · exact key _ rejected_D41
   · exact key _ rejected_D36
   · exact key _ rejected_ObjAsStored
+  · exact key _ rejected_BestFromBatch
+  · exact key _ rejected_TellDqdKeepsSolution
 
 /-- seeded C12-7: handing out entries of object fields "as stored" is fine for numeric fields' copies and
 rejected exactly in the object-field branch. -/
@@ -627,7 +631,7 @@ theorem nonvacuous :
     (match eAdd.check [false, false, false, false, false, true] with
      | .ok c => decide (c.own 0 = .caller ∧ c.env 10 = some ⟨0, true⟩ ∧ c.stored.length = 2 ∧
                         c.rets.length = 2 ∧ c.own 65 = .internal ∧ c.own 33 = .fresh)
-     | .error _ => false) = true ∧ entries.length = 40 ∧ negatives.length = 17 := by
+     | .error _ => false) = true ∧ entries.length = 40 ∧ negatives.length = 19 := by
   decide +kernel
 
 /-! ## T12.3 all read paths present the same rows in the same order -/
